@@ -267,61 +267,171 @@ func (c *Checker) checkReadPAT() {
 		return
 	}
 	c.analysed[fn.String()] = true
-	isPat, _ := c.P.Func("packet:IsPat")
-	newPat, _ := c.P.Func("psi:NewPAT")
-	payload, _ := c.P.Func("packet:Payload")
-	// 1. packets are read with io.ReadFull into the whole packet
-	var reads []*ssa.Call
-	for _, ci := range allCalls(fn) {
-		if call, ok := ci.(*ssa.Call); ok && calleeName(call) == "io.ReadFull" {
-			reads = append(reads, call)
+	c.checkReadPATStep(fn)
+}
+
+// checkReadPATStep: one abstract iteration of ReadPAT's loop. The read is
+// replaced by a model that fills the packet with symbolic bytes whose PID
+// bits are seeded: all thirteen zero (the PAT), or bit k one and the other
+// twelve symbolic for k = 0..12 (together: every PID other than 0). A packet
+// of another PID must be skipped whatever else it contains; a PID-0 packet or
+// a failed read must leave the loop; the end of the stream gives the
+// PAT-not-found error and any other read error is returned as it is.
+func (c *Checker) checkReadPATStep(fn *ssa.Function) {
+	const anchor = "psi:ReadPAT"
+	type res struct {
+		ls  *LoopStep
+		err error
+		rd  Val
+	}
+	run := func(one, afc, afl int) res {
+		var r res
+		setup := func(in *Interp) {
+			in.Intrinsic = func(f *ssa.Function, args []Val, st *State) (Val, bool) {
+				if f.String() != "io.ReadFull" || len(args) != 2 {
+					return nil, false
+				}
+				buf, ok := args[1].(*SliceV)
+				if !ok {
+					in.fail("read model: buffer is %s", showVal(args[1]))
+					return nil, true
+				}
+				lo, _ := buf.Lo.ConstInt()
+				n, _ := buf.Len.ConstInt()
+				for i := int64(0); i < n; i++ {
+					b := &BV{W: 8, Bits: append([]Bit(nil), cellBV("rd", int(i)).Bits...)}
+					for k := 0; k < 13; k++ {
+						// PID bit k: byte 2 bit k (k < 8), byte 1 bit k-8
+						at, bit := int64(2), k
+						if k >= 8 {
+							at, bit = 1, k-8
+						}
+						if at != i {
+							continue
+						}
+						switch {
+						case one < 0:
+							b.Bits[bit] = U.B0
+						case k == one:
+							b.Bits[bit] = U.B1
+						}
+					}
+					if i == 3 && afc >= 0 {
+						b.Bits[5], b.Bits[4] = bconst(afc&2 != 0), bconst(afc&1 != 0)
+					}
+					if i == 4 && afl >= 0 {
+						b = constInt(int64(afl), 8, false)
+					}
+					if n != 188 {
+						in.fail("read model: the buffer handed to io.ReadFull has %d bytes, not a whole packet", n)
+					}
+					in.setCell(st, buf.Obj, joinPath(buf.Prefix, int(lo+i)), b)
+				}
+				v := in.opaque(f.Signature.Results(), "io.ReadFull")
+				in.event(Event{Kind: "call", Note: "io.ReadFull", Val: v})
+				r.rd = v
+				return v, true
+			}
+		}
+		r.ls, r.err = AnalyzeLoop(c.P, fn, &AnalyzeOpts{Setup: setup})
+		return r
+	}
+	skipBad, first := 0, ""
+	for k := 0; k < 13; k++ {
+		r := run(k, -1, -1)
+		tup, _ := r.rd.(*StructV)
+		if r.err != nil || tup == nil || len(tup.Fields) != 2 {
+			c.undecided("C07.readstep", anchor, "loop step", fmt.Sprintf("PID bit %d set: %v", k, r.err))
+			return
+		}
+		in := r.ls.Sum.in
+		fs := newFactSet(nil)
+		fs.assume(in.nilBit(tup.Fields[1]))
+		if cont := fs.bit(r.ls.Cond); !isConst(cont) || !cont.c {
+			skipBad++
+			if first == "" {
+				first = fmt.Sprintf("PID bit %d set: the loop goes on only under %s", k, cont)
+			}
 		}
 	}
-	ok := len(reads) == 1 && strings.HasSuffix(sx(reads[0].Call.Args[1]), "[:]")
-	c.check("C07.reader", anchor, "reads whole 188-byte packets with io.ReadFull", ok, fmt.Sprintf("%d ReadFull calls", len(reads)))
-	// 2. parsing is gated by IsPat on that packet
-	gated := false
-	for _, ci := range callsTo(fn, newPat) {
-		call := ci.(*ssa.Call)
-		for b := call.Block(); b != nil; b = b.Idom() {
-			id := b.Idom()
-			if id == nil {
+	c.check("C07.readstep", anchor, "a packet read completely whose PID is not 0 is skipped whatever else it contains (13 one-bit classes = every PID but 0)", skipBad == 0, first)
+	r := run(-1, -1, -1)
+	tup, _ := r.rd.(*StructV)
+	if r.err != nil || tup == nil || len(tup.Fields) != 2 {
+		c.undecided("C07.readstep", anchor, "loop step", fmt.Sprintf("PID 0: %v", r.err))
+		return
+	}
+	in := r.ls.Sum.in
+	er := tup.Fields[1]
+	erNil := in.nilBit(er)
+	erEOF := in.eqBit(er, SymConst{Name: "io.EOF"})
+	erUEOF := in.eqBit(er, SymConst{Name: "io.ErrUnexpectedEOF"})
+	retErr := r.ls.Sum.RetN(1)
+	for _, cs := range []struct {
+		name  string
+		facts []Bit
+		want  func(v Val) bool
+		what  string
+	}{
+		{"the stream ends on a packet boundary", []Bit{bnot(erNil), erEOF, bnot(erUEOF)}, func(v Val) bool { return showVal(v) == "gots.ErrPATNotFound" }, "the PAT-not-found error"},
+		{"the stream ends inside a packet", []Bit{bnot(erNil), bnot(erEOF), erUEOF}, func(v Val) bool { return showVal(v) == "gots.ErrPATNotFound" }, "the PAT-not-found error"},
+		{"the reader fails otherwise", []Bit{bnot(erNil), bnot(erEOF), bnot(erUEOF)}, func(v Val) bool { return sameVal(v, er) }, "the reader's error"},
+	} {
+		fs := newFactSet(nil)
+		for _, f := range cs.facts {
+			fs.assume(f)
+		}
+		cont := fs.bit(r.ls.Cond)
+		got := fs.val(retErr)
+		c.check("C07.readstep", anchor, cs.name+": the search stops with "+cs.what, isConst(cont) && !cont.c && cs.want(got), fmt.Sprintf("continues under %s; result error %s", cont, showVal(got)))
+	}
+	// the table handed back is a private copy of exactly the packet's payload
+	for _, cs := range []struct {
+		name          string
+		afc, afl, off int
+	}{
+		{"payload only", 1, -1, 4},
+		{"adaptation field of 7 bytes, then payload", 3, 7, 12},
+	} {
+		r := run(-1, cs.afc, cs.afl)
+		tup, _ := r.rd.(*StructV)
+		if r.err != nil || tup == nil {
+			c.undecided("C07.readstep", anchor, "PAT packet, "+cs.name, fmt.Sprint(r.err))
+			continue
+		}
+		in := r.ls.Sum.in
+		fs := newFactSet(nil)
+		fs.assume(in.nilBit(tup.Fields[1]))
+		d := ""
+		if cont := fs.bit(r.ls.Cond); !isConst(cont) || cont.c {
+			d = "the search goes on under " + cont.String()
+		} else if e := fs.bit(in.nilBit(r.ls.Sum.RetN(1))); !isConst(e) || !e.c {
+			d = "an error may be returned: nil under " + e.String()
+		}
+		var sl *SliceV
+		if iv, ok := fs.val(r.ls.Sum.RetN(0)).(*IfaceV); ok {
+			sl, _ = iv.V.(*SliceV)
+		}
+		switch {
+		case d != "":
+		case sl == nil:
+			d = "result is " + showVal(fs.val(r.ls.Sum.RetN(0)))
+		case sl.Obj.Kind != "make":
+			d = "the table shares storage with " + sl.Obj.Name
+		default:
+			lo, ok1 := sl.Lo.ConstInt()
+			n, ok2 := sl.Len.ConstInt()
+			if !ok1 || !ok2 || n != int64(188-cs.off) {
+				d = fmt.Sprintf("table window %s, expected %d bytes", showVal(sl), 188-cs.off)
 				break
 			}
-			if ifi, ok := id.Instrs[len(id.Instrs)-1].(*ssa.If); ok && id.Succs[0] == b {
-				if cc, ok := ifi.Cond.(*ssa.Call); ok && cc.Call.StaticCallee() == isPat {
-					gated = true
+			for i := int64(0); i < n && d == ""; i++ {
+				got, _ := fs.val(r.ls.Sum.Cell(sl.Obj, joinPath(sl.Prefix, int(lo+i)), byteT)).(*BV)
+				if ok, dd := matchBits(got, cellBV("rd", cs.off+int(i)).Bits); !ok {
+					d = fmt.Sprintf("table byte %d: %s", i, dd)
 				}
 			}
 		}
-		// argument is a copy of the payload
-		arg := sx(call.Call.Args[0])
-		c.check("C07.reader", anchor, "PAT built from a copy of the packet's payload", strings.HasPrefix(arg, "make["), "NewPAT argument is "+arg)
+		c.check("C07.readstep", anchor, "PAT packet, "+cs.name+": the search ends without error and the table returned is a fresh copy of packet bytes "+fmt.Sprint(cs.off)+"..187", d == "", d)
 	}
-	c.check("C07.reader", anchor, "only a packet classified by IsPat (PID 0) is parsed", gated && len(callsTo(fn, payload)) == 1, "NewPAT is not dominated by IsPat(&pkt) == true")
-	// 3. end of stream → ErrPATNotFound; other read errors returned
-	notFound, propagated := false, false
-	for _, b := range fn.Blocks {
-		if r, ok := b.Instrs[len(b.Instrs)-1].(*ssa.Return); ok && len(r.Results) == 2 {
-			e := sx(r.Results[1])
-			if strings.HasSuffix(e, "ErrPATNotFound") {
-				notFound = true
-			}
-			if ex, ok := r.Results[1].(*ssa.Extract); ok {
-				if call, ok := ex.Tuple.(*ssa.Call); ok && calleeName(call) == "io.ReadFull" {
-					propagated = true
-				}
-			}
-		}
-	}
-	eofBreak := false
-	for _, b := range fn.Blocks {
-		if ifi, ok := b.Instrs[len(b.Instrs)-1].(*ssa.If); ok {
-			cs := sx(ifi.Cond)
-			if strings.Contains(cs, "*@EOF") && strings.Contains(cs, "==") {
-				eofBreak = true
-			}
-		}
-	}
-	c.check("C07.reader", anchor, "a stream that ends without a PAT yields the PAT-not-found error; other read errors are returned", notFound && propagated && eofBreak, fmt.Sprintf("notFound=%v propagated=%v eofTest=%v", notFound, propagated, eofBreak))
 }
